@@ -144,3 +144,16 @@ MANIFEST_TEXT['C04'] = dict(
     text='Coq: frames have the three OCPP-J shapes and are read back unchanged; the JSON keys of every payload struct of the current source are pairwise distinct under case folding (regenerated JSON schemas, vm_compute + forallb lifting); encode / decode model of encoding/json\'s struct rules with the round-trip theorem (decode (encode v) re-encodes to the same JSON) and the string text layer (parse (print s) = s under both escaping modes). The model is run against the real marshalling and the real receive path for every message type, and the property itself (same kind, id, action, equal payload, identical re-serialisation) is evaluated on the implementation for every generated payload.',
     note='Trusted: Coq kernel + vm_compute, translator, harness; encoding/json is modelled, not verified; float formatting of non-integers is compared at 3 decimals.',
     technique='translator-regenerated JSON schemas + Coq proofs over an encode/decode model + differential correspondence + direct round-trip monitor on the implementation')
+
+PROPS['C06'] = Prop('C06', harness='c06', entries=['c06'], props_file='theories/Props/C06.v', quick_n=1, thorough_n=1,
+                    trusted=[TRANSLATOR_TRUST, 'bytes -> JSON is encoding/json (text that is not JSON, or not an array, is dropped before the modelled logic); the decode + validation verdict of a payload is computed with the library by the harness (C04 / C05 describe it) and given to the model',
+                             'generated handler stubs; in-process ws doubles; goroutine-dump quiescence detector'],
+                    assumptions=['the endpoint\'s dialect is set (the four protocol constructors set it; FormatErrorType panics by design otherwise)',
+                                 'no invalid-message hook is installed',
+                                 'the crash of the server pump by valid traffic (finding F1) is outside this property\'s input space and outside class S0'],
+                    rule='grammar-based malformed stream injected into the four real endpoint kinds, with and without a request outstanding: text that is not JSON, non-arrays, arrays of length 0-7, every element replaced by 18 JSON kinds (null, booleans, 0, 2.5, -0, 1e300, strings, arrays, objects, other type ids), ids of 36/37/300 characters and non-ASCII, unknown / wrong-direction / long actions, type-confused and constraint-violating payloads, replies (well-formed and malformed) for the pending id and for foreign ids, nesting 3000 and 12000 deep, 300 kB strings, out-of-range numbers, random splices; after every frame the genuine reply to the outstanding request and a fresh valid CALL must be processed normally; counted = distinct encoded cases',
+                    design_ref='5 C06', monitor_prefixes=['C06'], harness_timeout=1800)
+MANIFEST_TEXT['C06'] = dict(
+    text='Coq theorems on a total model of Endpoint.ParseMessage + ocppMessageHandler, for every JSON array whatsoever: at most one effect (CALL_ERROR reply, completion of the outstanding request, or delivery to the request handler); the outstanding request is touched only by a well-formed reply carrying exactly its id; a CALL_ERROR is sent only with a non-empty id extracted from the frame and carries it; foreign replies cause nothing. The model is run against the four real endpoint kinds on a grammar-based malformed stream (about 1800 frames per run incl. raw garbage, deep nesting, huge strings), with a recover / process-isolation watchdog for panics and a quiescence watchdog for hangs, and a valid exchange after every frame.',
+    note='Trusted: Coq kernel, translator (action tables), harness; encoding/json and the payload verdict come from the library. Panic-freedom of the Go code itself is observed (every frame of the stream), not proved: the model is total where the Go code guards each access.',
+    technique='Coq proofs over a total model of the frame handling + differential correspondence on a grammar-based malformed stream + crash / hang / usability monitors')
